@@ -14,6 +14,10 @@ Fault enumeration with real processes and real files:
     property statement) says which contents are allowed at that point.
 On a disagreement the saved post-kill files are re-verified with single files removed (stale -wal/-shm,
 the backup file): the file whose removal makes the disagreement disappear names the mechanism in the sig.
+Every scenario process also reads all rows right after its own Wtp() returned (digest mark): when that
+content is already not allowed (the scenario's own reopen restored wrongly) the case gets the signature of
+the kill point "before the victim started" and its later steps are not judged.  A victim that is not
+killed and does not finish (twice, 60 s each) is reported as scenario-step-hangs.
 """
 from __future__ import annotations
 
@@ -51,6 +55,10 @@ ASSUMPTIONS = [
     "after a restore that is not followed by a new backup both readings of the statement are accepted (restored snapshot or last committed content)",
     "while backup_db() is in flight the original content, the original + its own commit, the new snapshot and a previous completed backup are all accepted",
     "page bodies contain no '<' (template bodies are stored verbatim then) so the expected rows are exactly the rows asked for",
+    "a scenario step (not killed) that raises or does not return within 2 x 60 s is reported as a violation of its own "
+    "(scenario-step-raises / scenario-step-hangs): the statement presupposes that backup / overwrite / close / reopen complete",
+    "kill points are exhaustive per generated scenario (every traced line, every op boundary; thorough: every listed syscall); "
+    "the scenarios themselves are a seeded sample (quick 32, thorough 112)",
 ]
 WALL = {"quick": 900, "thorough": 5400}
 
